@@ -111,6 +111,11 @@ def add_span_probes(ctx, cases):
         if line.startswith('("ok"'):
             r = parse_sx(line)
             spans = [cdump.Span(s) for s in r[4][1]]
+            live = [x for x in spans if x.rank != 0 and x.min is not None and x.max is not None]
+            if len(live) > 2:
+                ctx.count("set:three or more spans")
+            if any(cdump.cmp_v(y.min, x.max) <= 0 for x, y in zip(live, live[1:]) if x.min.sys in (0, 1, 2, 4, 5)):
+                ctx.count("set:neighbouring spans overlap or touch (not a fixed point of canon)")
             if r[2][0] == b"ok":
                 spans += [cdump.Span(s) for s in r[2][3][1]]
             extra = reqtext.span_probes(ctx.rng, c["sys"], spans, have=c["probes"])
